@@ -11,7 +11,7 @@ cp demo_$prop.c $out/
 make -j8 >/dev/null 2>&1
 make -k check > /tmp/vw/keep_$id.log 2>&1 || true
 tests=$(grep -E "^# (PASS|FAIL):" /tmp/vw/keep_$id.log | tr '\n' ' ')
-L=""; case $prop in C13|C12) L="-lpthread";; esac
+L=""; case $prop in C13|C12|C18) L="-lpthread";; esac
 gcc -I$wt/include -I$wt demo_$prop.c $wt/src/.libs/libsafec.a -o /tmp/vw/demo_mut_$id $L -lm 2>/dev/null
 set +e
 /tmp/vw/demo_mut_$id > /tmp/vw/demo_mut_$id.out 2>&1; rc_mut=$?
